@@ -1764,8 +1764,9 @@ class LP_STRING(DataOperation):
         length_bytes = [(len(s) >> 8) & 0xFF, len(s) & 0xFF]
         data_bytes = []
         for c in s:
-            data_bytes.append(0)
-            data_bytes.append(ord(c))
+            # An octal escape can be as large as 0o777.
+            data_bytes.append((ord(c) >> 8) & 0xFF)
+            data_bytes.append(ord(c) & 0xFF)
         return bytes(length_bytes + data_bytes)
 
 
